@@ -32,8 +32,10 @@ class C08Suite(mc.MutexSuite):
         if i["deadlock"]:
             msgs.append("lost: a request was lost or the mutex stayed locked with no owner (contenders stuck)")
             return msgs
-        if i["final"] and i["final"] != ("req=free", "queue=empty"):
-            msgs.append("stuck: all ownerships released but the mutex is %s %s" % i["final"])
+        if i["final"] and tuple(i["final"][:2]) != ("req=free", "queue=empty"):
+            msgs.append("stuck: all ownerships released but the mutex is %s %s" % tuple(i["final"][:2]))
+        if i["final"] and ("slot=armed" in i["final"] or "aux=locked" in i["final"]):
+            msgs.append("stuck: every contender is done but an ownership object is still armed (%s)" % " ".join(i["final"][2:]))
         for a, (d, t) in i["rounds"].items():
             if d != t:
                 msgs.append("lost: agent a%d finished %d of %d rounds" % (a, d, t))
@@ -49,7 +51,9 @@ class C08(Spec):
     technique = "Lean 4 invariant proof over all schedules of a micro-step model + step-for-step differential replay on the real header under a baton scheduler"
     level_text = ("Lean 4 theorems over the micro-step mutex model (any number of contenders, every schedule): pending requests are kept in arrival order (queue ++ reversed stack sorted by "
                   "arrival stamp), every hand-over goes to the oldest pending request, a published request is in exactly one of stack/queue until granted, the mutex is never locked "
-                  "without an owner, try_lock is a single step that succeeds iff the mutex is free. Tied to mutex.h by step-for-step replay of generated/enumerated schedules; FIFO and "
+                  "without an owner, try_lock is a single step that succeeds iff the mutex is free; every way an unlock can be triggered through a mutex::ownership object (release(), "
+                  "awaited release, destructor, move into a temporary, move-assignment over a held ownership incl. hand-over-hand with a second mutex) enters the same unlock step, and "
+                  "requests come from co_await, try_lock, blocking lock()/ownership(co_awaiter&&)/force_wait (also from plain code inside a running coroutine) and callback awaiters. Tied to mutex.h by step-for-step replay of generated/enumerated schedules; FIFO and "
                   "no-loss oracles on the implementation trace.")
     level_note = ("trusted: Lean kernel; hand-written list-level model; baton shim (SC interleavings); which OS thread continues the new owner is modelled by the executor glue of the "
                   "same model and validated by the replay.")
